@@ -448,7 +448,24 @@ func (e *Enc) callExternal(ci ssa.CallInstruction, c *ssa.CallCommon, name strin
 		e.sc.Assert(Eq(ok, Eq(er, nilIface())))
 		return []Term{er}, nil
 	}
-	// default: effect-free, unconstrained results
+	// default: unconstrained results; effect-free for libraries known not to write through their
+	// arguments, otherwise the elements of every slice argument may have been overwritten
+	if !nonMutatingExternal(name) {
+		off := 0
+		if c.IsInvoke() {
+			off = 1
+		}
+		for i, a := range c.Args {
+			if sl, ok := a.Type().Underlying().(*types.Slice); ok {
+				hn := "E$" + e.tr.typeID(sl.Elem())
+				hs := ArraySort(SInt, ArraySort(SInt, e.tr.sortOf(sl.Elem())))
+				h := e.lookup(e.cur, hn, hs)
+				e.set(e.cur, hn, Store(h, App(SInt, "sref", args[i+off]), e.fresh("row", ArraySort(SInt, e.tr.sortOf(sl.Elem())))))
+			}
+		}
+		e.abstracted["external call "+name+": may overwrite the elements of its slice arguments; results unconstrained (may alias arguments); assumed not to panic"] = true
+		return e.freshResults(sig), nil
+	}
 	e.abstracted["external call "+name+": no effect on modelled state, results unconstrained, assumed not to panic"] = true
 	return e.freshResults(sig), nil
 }
@@ -518,4 +535,18 @@ func (e *Enc) onSync(ci ssa.CallInstruction, name string, args []Term) {
 	case "(*sync.Mutex).Unlock", "(*sync.RWMutex).Unlock", "(*sync.RWMutex).RUnlock":
 		e.set(e.cur, "L$held", Store(held, a, IntLit(0)))
 	}
+}
+
+// nonMutatingExternal: library functions that do not write through slice arguments.
+func nonMutatingExternal(name string) bool {
+	n := strings.TrimPrefix(name, "invoke:")
+	n = strings.TrimLeft(n, "(*")
+	for _, p := range []string{"fmt.", "strings.", "strconv.", "log/slog.", "errors.", "github.com/sirupsen/logrus.", "time.", "math.", "math/rand.",
+		"context.", "github.com/prometheus/client_golang/", "github.com/stretchr/testify/", "os.", "runtime/debug.", "regexp.", "sync.", "sync/atomic.",
+		"github.com/spf13/", "github.com/mattn/go-isatty.", "text/template.", "path/filepath.", "io.", "error.", "github.com/form3tech-oss/f1/v2/internal/xtime."} {
+		if strings.HasPrefix(n, p) {
+			return true
+		}
+	}
+	return false
 }
